@@ -591,7 +591,7 @@ theorem A.step_intoVec (cfg : Cfg) (s : State) (h : Nat) : step cfg s (.intoVec 
         | some x =>
           if off == 0 && ownerUnique cfg s owner then
             ok (setH (setI s owner { x with live := false }) h none) (.bytes (x.data.take len))
-              [Event.freeInner owner, Event.exportBuf x.buf]
+              (Event.freeInner owner :: (if x.cap > 0 then [Event.exportBuf x.buf] else []))
           else ok s (.bool false) []
         | none => ok s (.bool false) []
       | _ => ok s (.bool false) []
@@ -599,12 +599,18 @@ theorem A.step_intoVec (cfg : Cfg) (s : State) (h : Nat) : step cfg s (.intoVec 
 
 /-- C07: when `into_vec()` succeeds the value was an allocated one at offset 0 of its buffer,
 sole owner of it; the caller receives that very buffer (`exportBuf pb`, the handle's own data
-pointer), holding exactly the viewed bytes; nothing is copied, allocated or freed except the box. -/
+pointer), holding exactly the viewed bytes; nothing is copied, allocated or freed except the box.
+The events are `freeInner o` followed by `exportBuf pb` — the latter only if the owner `Vec` owns an
+allocation at all (`cap > 0`; a capacity-0 `Vec` has no buffer to hand over), which is always the
+case for a non-empty value (`0 < len`, since `len ≤ data.length ≤ cap` in a well-formed state). -/
 theorem intoVec_returns_buffer {cfg : Cfg} {s : State} (w : Wf cfg s) {h : Nat} {v : List UInt8}
     (hret : (step cfg s (.intoVec h)).2.ret = .bytes v) :
     ∃ hd o pb len x, getH s h = some hd ∧ hd.repr = .heap o pb 0 len ∧ getI s o = some x ∧ pb = x.buf ∧
       ownerUnique cfg s o = true ∧ refsTo s o = 1 ∧
-      (step cfg s (.intoVec h)).2.events = [.freeInner o, .exportBuf pb] ∧ v = view s hd := by
+      (step cfg s (.intoVec h)).2.events =
+        .freeInner o :: (if x.cap > 0 then [.exportBuf pb] else []) ∧
+      (0 < len → (step cfg s (.intoVec h)).2.events = [.freeInner o, .exportBuf pb]) ∧
+      v = view s hd := by
   rw [step_intoVec] at hret ⊢
   cases hg : getH s h with
   | none => rw [hg] at hret; cases hret
@@ -629,10 +635,15 @@ theorem intoVec_returns_buffer {cfg : Cfg} {s : State} (w : Wf cfg s) {h : Nat} 
           subst hoff
           have hok := w.handles h hd hg
           unfold HandleOk at hok; rw [hr] at hok
-          obtain ⟨x1, hx1, _, hpb, _⟩ := hok
+          obtain ⟨x1, hx1, hlive, hpb, hrng⟩ := hok
           rw [hx] at hx1; cases hx1
-          refine ⟨hd, o, pb, len, x, rfl, hr, hx, hpb, hu, ownerUnique_sole w hg hr hu, ?_, ?_⟩
+          refine ⟨hd, o, pb, len, x, rfl, hr, hx, hpb, hu, ownerUnique_sole w hg hr hu, ?_, ?_, ?_⟩
           · rw [hpb]; rfl
+          · intro hlen
+            have hcap : x.cap > 0 := by have := w.datacap o x hx hlive; omega
+            rw [hpb]
+            show Event.freeInner o :: (if x.cap > 0 then [Event.exportBuf x.buf] else []) = _
+            rw [if_pos hcap]
           · rw [← hret, view_heap_eq hr hx]; simp
         · simp only [hcond, Bool.false_eq_true, if_false] at hret
           cases hret
